@@ -295,6 +295,12 @@ def rule_decoders(model):
             if not ok:
                 r.finding(fi.where, d, f'{name} decodes bytes without '
                           'using its encoding parameter', node=d, ctx=fi)
+            if isinstance(d.func.value, ast.Call):
+                r.finding(fi.where, d, f'{name} decodes a combination of '
+                          'pieces in one call: every bytes value must be '
+                          'decoded on its own (codecs with a byte-order '
+                          'mark or state, e.g. UTF-16, differ)', node=d,
+                          ctx=fi)
             # decode must be guarded by isinstance(.., bytes)
     # join_unicode: only bytes elements are decoded, order kept
     ju = model.func('_DocumentTemplate', 'join_unicode')
@@ -307,7 +313,50 @@ def rule_decoders(model):
     return r
 
 
-RULES = [rule_threading, rule_concat, rule_decoders]
+def rule_exception_str(model):
+    r = RuleResult('C19.R4', 'an exception object is inserted as its '
+                   'message: no args -> empty, one arg -> that arg, else '
+                   'the args tuple')
+    fi = model.func('ustr', '_exception_str')
+    u = model.func('ustr', 'ustr')
+    p = fi.params()[0]
+    empty = one = False
+    for n in own_nodes(fi.node):
+        if isinstance(n, ast.If):
+            t = norm(n.test)
+            rets = [x for x in n.body if isinstance(x, ast.Return)]
+            if t in (f'not {p}.args', f'len({p}.args) == 0',
+                     f'{p}.args == ()') and rets and \
+                    isinstance(rets[0].value, ast.Constant) and \
+                    rets[0].value.value == '':
+                empty = True
+            if t == f'len({p}.args) == 1' and rets and \
+                    norm(rets[0].value) in (f'ustr({p}.args[0])',
+                                            f'str({p}.args[0])'):
+                one = True
+    r.instance(fi.where, 'no-argument case', 'ok' if empty else 'MISSING')
+    r.instance(fi.where, 'one-argument case', 'ok' if one else 'MISSING')
+    if not empty:
+        r.finding(fi.where, 'no-argument case', 'an exception without '
+                  'arguments is not inserted as the empty string',
+                  node=fi.node, ctx=fi)
+    if not one:
+        r.finding(fi.where, 'one-argument case', 'an exception with one '
+                  'argument is not inserted as that argument',
+                  node=fi.node, ctx=fi)
+    # ustr routes exceptions there
+    routed = any(isinstance(n, ast.Call) and fi.where in
+                 model.callee_names(n, u) for n in own_nodes(u.node))
+    r.instance(u.where, 'exceptions -> _exception_str',
+               'ok' if routed else 'MISSING')
+    if not routed:
+        r.finding(u.where, '_exception_str(v)', 'ustr does not convert '
+                  'exception objects through their message', node=u.node,
+                  ctx=u)
+    return r
+
+
+RULES = [rule_threading, rule_concat, rule_decoders, rule_exception_str]
 EXPLANATION = (
     'Call-site query: every call whose resolved callee has an `encoding` '
     'parameter must bind it (self.encoding / the received encoding), '
